@@ -32,7 +32,8 @@ instance (cfg : Cfg) (h : HookId) : Decidable (Protected cfg h) :=
   decidable_of_iff (∀ k ∈ OpKind.all, prot cfg h k ≠ .none)
     ⟨fun hh k => hh k (OpKind.mem_all k), fun hh k _ => hh k⟩
 
-def NoFresh (ops : List Op) : Prop := ∀ op ∈ ops, op.isFresh = false
+/-- neither an embedded-shell importer swap nor a third-party registry step (see Pfb.C14 for those) -/
+def NoFresh (ops : List Op) : Prop := ∀ op ∈ ops, op.notPlain = false
 
 /-! ## No escape -/
 
@@ -103,6 +104,7 @@ theorem C13_no_escape_run (cfg : Cfg) (hdbg : cfg.debug = false) :
     | unloadExt => exact ih _ hp' d (by simpa [deliveries] using hd)
     | reloadExt f => exact ih _ hp' d (by simpa [deliveries] using hd)
     | freshImporter => exact ih _ hp' d (by simpa [deliveries] using hd)
+    | foreign f => exact ih _ hp' d (by simpa [deliveries] using hd)
 
 example : Protected Cfg.unchanged .astVisit := by decide
 example : Protected Cfg.unchanged .ofind := by decide
@@ -166,7 +168,7 @@ structure Quiet (cfg : Cfg) (b0 : Shell) (st : St) : Prop where
   off : st.ai.state = .disabled
   errored : st.ai.errored = true
 
-theorem quiet_step {cfg b0 st} (hq : Quiet cfg b0 st) (hc : Clean b0) (op : Op) (h1 : op.isFresh = false)
+theorem quiet_step {cfg b0 st} (hq : Quiet cfg b0 st) (hc : Clean b0) (op : Op) (h1 : op.notPlain = false)
     (h2 : Op.isReenable op = false) : Quiet cfg b0 (step cfg st op) := by
   have hinv := inv_step hq.inv hc op h1
   cases op with
@@ -197,7 +199,8 @@ theorem quiet_step {cfg b0 st} (hq : Quiet cfg b0 st) (hc : Clean b0) (op : Op) 
     · refine ⟨hinv, ?_, ?_⟩ <;> simp only [step] <;> rw [e]
       · exact disable_state _
       · simp [disable_errored]
-  | freshImporter => simp [Op.isFresh] at h1
+  | freshImporter => simp [Op.notPlain, Op.isFresh] at h1
+  | foreign f => simp [Op.notPlain, Op.isForeign] at h1
 
 /-- **C13_stays_withdrawn.**  After the withdrawal, for every further history in which the user does not
     explicitly ask for the importer again (`enable(even_if_previously_errored=True)`, `%load_ext`,
